@@ -256,4 +256,5 @@ def _inside_content(body, rootname):
 
 
 if __name__ == "__main__":
-    main()
+    import common
+    common.run(main, PID)
